@@ -99,6 +99,47 @@ def fanout_ok(m, q, books_field, target):
     """does q call OrderBook::<target> on EVERY element of self.<books_field>?  Accepted idioms:
     `for b in self.books.iter_mut() { b.target(..) }` (no adapter) and
     `for i in 0..ASSETS { self.books[i].target(..) }`.  Returns (ok, call or None, detail)"""
+    # `self.books.iter_mut().for_each(op)` (possibly through a private helper taking the operation: inlined view)
+    for fe in q.calls("for_each"):
+        if fe.guards or len(fe.args) != 2:
+            continue
+        src, op = fe.args
+        names = []
+        e = src
+        while e[0] == "call" and e[2] and e[4] in ("iter_mut", "into_iter", "iter", "deref_mut", "as_mut_slice"):
+            names.append(e[4])
+            e = e[2][0]
+        if not (fld(e, books_field) and field_chain(e)[0][0] == "param"):
+            continue
+        if op[0] == "fn":
+            if op[1].split("::")[-1] == target and "OrderBook" in op[1]:
+                return True, fe, "iter_mut().for_each(OrderBook::%s) over all books" % target
+            return False, fe, "for_each applies %s" % op[1]
+        if op[0] == "agg" and op[1] == "closure":
+            from analysis.beta import closure_fn
+            cf = closure_fn(m.w, op)
+            if cf is not None:
+                cq = m.w.q(cf)
+                cc = [c for c in cq.calls(target) if c.target is not None and (c.target.impl_adt or "").endswith("orderbook::OrderBook")]
+                if len(cc) == 1 and not cc[0].guards and not cq.cfg.in_loop(cc[0].b) and cc[0].args and cc[0].args[0][0] == "param" and cc[0].args[0][1] == 2:
+                    # arguments of the inner call with the closure's captures replaced by the captured operands
+                    from analysis.beta import subst_expr
+                    ops, cnames = op[3], op[4]
+
+                    def cap(e):
+                        if e[0] == "field" and e[1][0] == "param" and e[1][1] == 1:
+                            for i, n in enumerate(cnames):
+                                if n.lstrip("*") == e[2].lstrip("*") and i < len(ops):
+                                    return ops[i]
+                        return None
+
+                    class Inner:
+                        pass
+                    ic = Inner()
+                    ic.args = [subst_expr(a, cap) for a in cc[0].args]
+                    ic.loc = fe.loc
+                    return True, ic, "iter_mut().for_each(|book| book.%s(..)) over all books" % target
+                return False, fe, "for_each closure does not call %s on its item exactly once, unconditionally" % target
     cs = [c for c in q.calls(target) if c.target is not None and (c.target.impl_adt or "").endswith("orderbook::OrderBook")]
     if len(cs) != 1 or not q.cfg.in_loop(cs[0].b):
         return False, (cs[0] if cs else None), "%d calls of %s in a loop" % (len(cs), target)
